@@ -623,6 +623,7 @@ func (p *c20) RunCase(ctx *runner.Ctx) runner.CaseResult {
 			p.rejectedNativeUpdate(x, adapt.Adapters[ctx.Case-seqCases])
 			p.missingUpdaterAndConditions(x, adapt.Adapters[ctx.Case-seqCases])
 		p.prefixNamedTables(x, adapt.Adapters[ctx.Case-seqCases])
+		p.composedTexts(x, adapt.Adapters[ctx.Case-seqCases])
 			return x.r
 		}
 		p.parallelClients(x, ctx.Case-seqCases-2, ctx)
